@@ -45,6 +45,12 @@ def cli_env(guard: bool = False) -> dict:
     return e
 
 
+def num(v: int) -> str:
+    """A number as the command line / a configuration file may spell it: the notation (0x.. hex, decimal, 0o.. octal, 0b.. binary)
+    is free wherever the tool reads integers with base 0, so it varies with the value."""
+    return [hex, str, str, hex, oct, str, hex, bin][v % 8](v) if v >= 0 else str(v)
+
+
 def cli_cmd(*args) -> list:
     """The real CLI of the tree under test."""
     return [PY, str(REPO / "suit_generator" / "cli.py"), *[str(a) for a in args]]
